@@ -1,6 +1,6 @@
 SPECIFICATION Spec
 CONSTANTS
-  Sizes = {0, 127, 32767, 32768, 65535, 65536, 4194304, 8388607}
+  Sizes = {0, 127, 32767, 32768, 65535, 65536, 98304, 4194304, 8388607}
   Ops = {0, 494, 65535}
   Paths = {0, 1}
   MaxLen = 2
